@@ -34,6 +34,7 @@ ASSUMPTIONS = [
 ]
 
 PROJS = ["TAN", "TPV", "TPV0", "TPVS", "TANPV", "SIP2", "SIP3", "SIP4", "SIP23", "SIP32"]
+VARIANT_PROJS = ["SIP2+A0", "SIP3+B0", "SIP23+A0", "TPV+X0", "TPV+Y0", "TAN+Z", "TPV+Z", "SIP3+Z"]
 CRVALS = [(10.0, 20.0), (0.0, 0.0), (1e-4, -57.0), (359.9999, 89.99), (123.0, 90.0), (45.0, -90.0), (180.0, -89.999)]
 CDS = [(0.27, 30.0, False), (0.05, 200.0, True), (2.0, 90.0, False), (0.27, 0.0, True)]
 CRPIXS = [(1024.0, 2048.0), (1.0, 1.0), (-4617.7, -8609.6)]
@@ -48,6 +49,12 @@ def header_list(quick):
                     if proj != "TAN" and crpix[0] < 0 and cd[0] > 1:
                         continue   # 2"/px x 10^4 px off-axis: the cubic PV/SIP terms are unrealistic there
                     out.append((proj, crval, cd, crpix))
+    # header variants (mc/oracle/wcsref.py make_header): one polynomial / PV set written out as zeros / identity, and
+    # tile-compressed image headers carrying NAXISn of the compressed table next to ZNAXISn of the image
+    for proj in VARIANT_PROJS:
+        for crval in CRVALS[:1] + CRVALS[3:4]:
+            for cd in CDS[:2]:
+                out.append((proj, crval, cd, CRPIXS[0]))
     return out
 
 
@@ -115,7 +122,7 @@ def main(ctx):
             if abs(dec).max() > 90:
                 return rec.fail(hd, "latitude outside [-90,90]")
             # reference pixel -> reference position (no constant distortion terms)
-            if proj not in ("TPV", "TPVS", "TANPV"):
+            if proj.split("+")[0] not in ("TPV", "TPVS", "TANPV"):
                 r0, d0 = w.image2sky(crpix[0], crpix[1])
                 calls += 1
                 e = float(W.sep(r0, d0, crval[0], crval[1]))
@@ -239,7 +246,7 @@ def main(ctx):
             return rec.fail(case, "sky2image(find=True) misses the pixel by %.3g px (> 1e-6): got (%r,%r)" % (e, xb, yb))
         rec.ok(case, outcome="find:%s" % proj, nontrivial=nontriv(hd), calls=1)
 
-    dist_headers = [hd for hd in headers if hd[0] != "TAN"]
+    dist_headers = [hd for hd in headers if hd[0].split("+")[0] != "TAN"]
     if ctx.quick:
         # 3 headers per projection, spread over CRVAL/CD/CRPIX by striding
         sel = []
@@ -333,7 +340,7 @@ def main(ctx):
                                   "away from the target (> 1e-6)" % (lon, lat, e / pixdeg))
         rec.ok(case, outcome="polar:%s/dl=%g" % (hd[0], dl), nontrivial=True, calls=1)
 
-    pol_headers = [hd for hd in headers if hd[0] != "TAN" and abs(hd[1][1]) >= 89.9 and hd[3] == (1024.0, 2048.0)]
+    pol_headers = [hd for hd in headers if hd[0] != "TAN" and "+" not in hd[0] and abs(hd[1][1]) >= 89.9 and hd[3] == (1024.0, 2048.0)]
     if ctx.quick:
         pol_headers = [hd for hd in pol_headers if hd[0] in ("TPV", "SIP3", "TPV0")]
     punits = [(hd, dl, c) for hd in pol_headers for dl in (0.0, 90.0, 179.0, 179.9, 180.0, 180.1, 181.0, 270.0)
